@@ -196,12 +196,12 @@ pub mod mirror {
     pub enum V<'a, T> { Own(T), Node(&'a T) }
     impl<'a, T> V<'a, T> { pub fn get(&self) -> &T { match self { V::Own(v) => v, V::Node(v) => v } } }
 
-    pub struct Ctx<'a, T> { pub root: &'a T, pub union_multi: std::cell::Cell<bool>,
+    pub struct Ctx<'a, T> { pub root: &'a T, pub union_multi: std::cell::Cell<bool>, pub ext_multi: std::cell::Cell<bool>,
                             /// false: RFC 9535 (per input node, the selectors in order). true: the order recorded as known finding KF-C02-union-order
                             /// (per selector over the WHOLE input list) - used only to tell that finding from any other wrong order
                             pub by_selector: bool }
-    impl<'a, T> Ctx<'a, T> { pub fn new(root: &'a T) -> Self { Ctx { root, union_multi: std::cell::Cell::new(false), by_selector: false } }
-                             pub fn known_union_order(root: &'a T) -> Self { Ctx { root, union_multi: std::cell::Cell::new(false), by_selector: true } } }
+    impl<'a, T> Ctx<'a, T> { pub fn new(root: &'a T) -> Self { Ctx { root, union_multi: std::cell::Cell::new(false), ext_multi: std::cell::Cell::new(false), by_selector: false } }
+                             pub fn known_union_order(root: &'a T) -> Self { Ctx { root, union_multi: std::cell::Cell::new(false), ext_multi: std::cell::Cell::new(false), by_selector: true } } }
 
     impl<'a, T: Queryable> Ctx<'a, T> {
         pub fn select(&self, s: &Selector, n: &N<'a, T>) -> Vec<N<'a, T>> {
@@ -364,6 +364,9 @@ pub mod mirror {
                 // C14 (the documented extension functions of serde_json::Value; meaningful for that data type only): the VALUES of the
                 // arguments are handed over in written order, an argument that denotes nothing contributes none
                 TestFunction::Custom(name, args) => {
+                    // an argument written as a non-singular query that selects SEVERAL nodes is outside the property (it speaks of values and
+                    // missing nodes): such an evaluation is flagged and not compared
+                    for a in args { if let FnArg::Test(t) = a { if !matches!(&**t, Test::Function(_)) && self.test_nodes(t, cur).len() > 1 { self.ext_multi.set(true); } } }
                     let vals: Vec<V<'a, T>> = args.iter().filter_map(|a| self.arg_value(a, cur)).collect();
                     let refs: Vec<&T> = vals.iter().map(|v| v.get()).collect();
                     ext_sets(name, &refs) == Some(true)
